@@ -46,12 +46,14 @@ package kgo
 //@   prop C31
 //@   mode bv
 //@   site store pollWaitState#0 assert [no-borrow] val >> 32 == prev >> 32 && prev & 0xffffffff > 0 && val == prev - 1
+//@   ensures [wakes-all-waiters] c.cl.cfg.blockRebalanceOnPoll ==> reached($Broadcast0)
 
 // AllowRebalance clears only the low half.
 //@ func (c *consumer) allowRebalance()
 //@   prop C31
 //@   mode bv
 //@   site store pollWaitState#0 assert [clears-low-half-only] val == prev & 0xffffffff00000000
+//@   ensures [wakes-all-waiters] c.cl.cfg.blockRebalanceOnPoll ==> reached($Broadcast0)
 
 // A rebalance registers itself (waiting), blocks while polls are in flight, and returns in its window (active)
 // with no poll in flight. Assumption (listed): fewer than 2^32-2 rebalancers.
@@ -74,3 +76,4 @@ package kgo
 //@   site store pollWaitState#0 ghost dec active
 //@   site store pollWaitState#0 assert [no-underflow] prev >> 32 >= 1
 //@   ensures [token] c.cl.cfg.blockRebalanceOnPoll ==> mine(active) == 0
+//@   ensures [wakes-all-waiters] c.cl.cfg.blockRebalanceOnPoll ==> reached($Broadcast0)
